@@ -33,6 +33,32 @@ CHECKS = {
                      "ASan/UBSan stayed silent, with callbacks starting requests and cancelling, hostile servers, socket "
                      "faults and seeded reordering of replies vs. timers. Exploration: histories not generated are not covered.",
                 note="Trusts the simulator's socket/server model and gcc ASan/UBSan; single-threaded (threads: C11)."),
+    "C06": dict(engine="simnet", category="exploration", design_ref="DESIGN.md §4 C06",
+                technique="runtime monitoring in a deterministic simulator: transmission accounting per wire query at the "
+                          "virtual network + wait-bound checks on every (re)send + stuck detection, under UBSan/ASan",
+                text="Held on the seeded retry histories explored: per (name,type,id) transmissions never exceeded servers x "
+                     "tries plus the resends justified by FORMERR/TC/BADCOOKIE replies actually sent, every (re)send's wait "
+                     "was >= the 250 ms/maxtimeout floor, >= the clamped configured base for servers without history and "
+                     "<= maxtimeout, every query ended with a definite status (virtual time makes tries up to 100 and "
+                     "timeouts up to 10 s cost nothing), and UBSan saw no overflow in the timeout arithmetic.",
+                note="Wait bounds read the library's own deadline (internal), counts are taken at the virtual network."),
+    "C07": dict(engine="simnet", category="exploration", design_ref="DESIGN.md §4 C07",
+                technique="runtime monitoring in a deterministic simulator: ares_timeout() compared with an independent walk "
+                          "of live deadlines at every scheduler step; post-processing progress invariant",
+                text="Single-threaded half: at every scheduler step of the retry/hostile histories ares_timeout() with six "
+                     "maxtv values was non-negative, normalised, never later than maxtv or the earliest live deadline, and "
+                     "after every processing call no live query kept a passed deadline. Event-thread half (no application "
+                     "action needed) is decided by the threaded stress engine when present in this tree.",
+                note="Deadlines are read from live queries via ares_private.h; virtual clock."),
+    "C10": dict(engine="simnet", category="fault_enumeration", design_ref="DESIGN.md §4 C10",
+                technique="runtime monitoring: descriptor-protocol automaton over the virtual socket layer's call log, the "
+                          "socket-state callback stream and ares_fds/ares_getsock, with k-th-call fault enumeration",
+                text="For every scenario of the fixed family the k-th socket-layer call was failed for every k past the last "
+                     "call and 5 error kinds (exhaustive for those scenarios), plus seeded exploration: every descriptor "
+                     "closed exactly once, none after destroy, no call on a closed/never-issued descriptor, per-socket UDP "
+                     "query limit respected, watch/stop announcements well-formed and present before events are needed, "
+                     "legacy descriptor sets equal to the open sockets that matter.",
+                note="Descriptor numbers are never reused by the virtual layer; a failing close() releases the descriptor."),
     "C19": dict(engine="dsmodel", category="exploration", design_ref="DESIGN.md §4 C19",
                 technique="model-based runtime monitoring: seeded operation sequences on the real containers, "
                           "step-wise comparison with reference models, under ASan+UBSan",
